@@ -369,6 +369,16 @@ func TestCheck(t *testing.T) {
 			}
 		}
 	}
+	// data files whose relative spelling looks like an option of the par command (a positional argument after the index path is data)
+	dashed := []scen.FileSpec{{Name: "-s", Size: 12, Kind: "random", Seed: 31}, {Name: "-c", Size: 9, Kind: "random", Seed: 32}, {Name: "-g=2", Size: 5, Kind: "random", Seed: 33}, {Name: "a.dat", Size: 20, Kind: "random", Seed: 34}}
+	for k, sp := range []string{"rel", "dot", "abs"} {
+		idx++
+		if cfg.Mine(idx) {
+			rec.Class("file-names-that-look-like-options")
+			do(Case{Format: "par2", Files: dashed, Slice: 4, N: 2, Var: Var{G: 1, Cwd: "set", Spelling: sp, CLI: true}})
+			do(Case{Format: "par1", Files: dashed[:3], N: 1 + k%2, Var: Var{G: 1, Cwd: "set", Spelling: sp, CLI: true}})
+		}
+	}
 	// repeated runs that overlap in time (one process, unrelated sets, no shared paths)
 	for k, f := range []string{"par2", "par1", "par2"} {
 		idx++
